@@ -102,6 +102,11 @@ F8API size_t modp_dtoa(double value, char* str, int prec) // DD
         value = -value;
     }
 
+    /* for very large numbers switch back to native sprintf for exponentials
+       (before the conversion to int below, which is undefined for them) */
+    if (value > thres_max)
+        return sprintf(str, "%e", neg ? -value : value); // DD
+
     whole = (int) value;
     tmp = (value - whole) * pow10_[prec];
     frac = (uint32_t)(tmp);
@@ -126,9 +131,6 @@ F8API size_t modp_dtoa(double value, char* str, int prec) // DD
       normal printf behavior is to print EVERY whole number digit
       which can be 100s of characters overflowing your buffers == bad
     */
-    if (value > thres_max)
-        return sprintf(str, "%e", neg ? -value : value); // DD
-
     if (prec == 0) {
         diff = value - whole;
         if (diff > 0.5) {
